@@ -73,6 +73,10 @@ def cases(tier, seed):
       p['max_iter'] = [5, 30, 100][(i // 3) % 3]
     if name == 'MMC_Supervised':
       p['n_constraints'] = int(r.choice([10, 25, 40]))
+    # (progress output is a configuration like any other: it must not
+    # alter what is computed)
+    if i % 5 == 2:
+      p['verbose'] = True
     out.append({'est': name, 'params': p,
                 'ds': {'seed': int(r.randint(2**31 - 1)),
                        'd': int(r.randint(2, 5 if q else 7)),
